@@ -22,6 +22,24 @@ def docsan(name):
     return s
 
 
+def _py(n):
+    """the python value behind a snapshotted name, for the simple types names are drawn from"""
+    if isinstance(n, tuple) and len(n) == 2 and n[0] in ("str", "int", "float", "bool", "NoneType"):
+        try:
+            return ast.literal_eval(n[1])
+        except Exception:
+            return n
+    return n
+
+
+def _name_eq(a, b):
+    """equality of two snapshotted names the way the library compares names: =="""
+    try:
+        return bool(_py(a) == _py(b))
+    except Exception:
+        return a == b
+
+
 def _vname(s):
     return s[2] if s and s[0] == "V" else None
 
@@ -66,7 +84,7 @@ class C18(Oracle):
                     elif b and b[0] == "T" and len(b[1]) == len(a[1]):
                         rule = "table-op-table"
                         env.probe("c18_tab_tab")
-                        want = [l if (r == NONE or r == l) else NONE for l, r in zip(a[1], b[1])]
+                        want = [l if (r == NONE or _name_eq(r, l)) else NONE for l, r in zip(a[1], b[1])]
                         if _tnames(rs) != want:
                             v = "table %s table: left names %s, right names %s, result %s, expected %s" % (rec["fn"], _tnames(a), _tnames(b), _tnames(rs), want)
             elif op == "copy" and rs is not None:
@@ -155,24 +173,28 @@ class C18(Oracle):
         if spec["k"] == "vec":
             return V.dec(spec.get("name"))
         if spec["k"] == "col" and tsnap and tsnap[0] == "T" and spec["j"] < len(tsnap[1]):
-            n = tsnap[1][spec["j"]]
-            return ast.literal_eval(n[1]) if n[0] == "str" else None
+            n = _py(tsnap[1][spec["j"]])
+            return None if isinstance(n, tuple) else n
         return None
 
     def _agg(self, env, rec, rs, a):
         got = []
-        for n in rs[1]:
+        nkeys = len(rec["over"])
+        for pos, n in enumerate(rs[1]):
             if n[0] != "str":
+                if pos < nkeys:
+                    got.append(n)        # a key column keeps its (possibly non-string) name
+                    continue
                 return "%s produced a non-string output name %s" % (rec["fn"], n)
             got.append(ast.literal_eval(n[1]))  # repr of a str -> the str
         env.probe("c18_agg")
-        if len(set(got)) != len(got):
+        if len(set(map(repr, got))) != len(got):
             return "%s output names are not pairwise distinct: %s" % (rec["fn"], got)
         over = rec["over"]
         k = len(over)
         for i, spec in enumerate(over):
             nm = self._colname(a, spec)
-            if isinstance(nm, str) and i < len(got):
+            if isinstance(nm, str) and i < len(got) and isinstance(got[i], str):
                 if not re.match("^" + re.escape(nm) + r"_?\d*$", got[i]):
                     return "%s: key column named %r came out as %r" % (rec["fn"], nm, got[i])
         rest = got[k:]
